@@ -53,6 +53,10 @@ func runServeCase(c svCase, bin, tmp string) map[string]interface{} {
 	switch c.CookieCfg {
 	case "emptykey":
 		pc.CookieKey = ""
+	case "blankvalue":
+		// a configured value that is blank but not empty: only that very value is the right cookie
+		val = " "
+		pc.CookieValue = val
 	case "emptyvalue":
 		pc.CookieValue = ""
 	}
@@ -87,6 +91,13 @@ func runServeCase(c svCase, bin, tmp string) map[string]interface{} {
 		env = append(env, key+"="+val+"x")
 	case "case":
 		env = append(env, key+"="+strings.ToUpper(val))
+	case "spaced":
+		// the right value with whitespace around it is not the right value
+		if val == " " {
+			env = append(env, key+"=\t")
+		} else {
+			env = append(env, key+"="+[]string{val + " ", " " + val, val + "\n", val + "\r\n", "\t" + val}[len(c.Name)%5])
+		}
 	case "other":
 		env = append(env, key+"=something-else")
 	case "exact":
